@@ -175,9 +175,95 @@ let first_diff (a : string) (b : string) : int =
   while !i < n && a.[!i] = b.[!i] do incr i done;
   !i / 2
 
+
+(* ---------- the abstract-tree specification run on the implementation's results ---------- *)
+let enc_sentry (e : sentry) : string =
+  let ty = match e.se_type with ERoot -> "R" | EStream -> "F" | EStorage -> "D" in
+  Printf.sprintf "%s,%s,%s,%s,%s,%s,%s,%s"
+    (enc_path e.se_name) (enc_path e.se_path) ty (hex_of_n_width e.se_clsid 32)
+    (dec_of_n e.se_state) (enc_time e.se_ctime) (enc_time e.se_mtime) (dec_of_n e.se_len)
+let enc_svalue = function
+  | SVUnit -> "ok"
+  | SVBool b -> if b then "b1" else "b0"
+  | SVBytes bs -> "x:" ^ enc_hex bs
+  | SVEntry e -> "e:" ^ enc_sentry e
+  | SVEntries [] -> "l:-"
+  | SVEntries es -> "l:" ^ String.concat ";" (List.map enc_sentry es)
+let enc_sres = function
+  | Ok v -> enc_svalue v
+  | Err k -> "err:" ^ kind_name k
+  | Panic _ -> "panic"
+  | OutOfFuel -> "outoffuel"
+
+(* the root entry's len() exposes the size of the mini stream, an allocation
+   detail with no counterpart in the abstract tree: not compared *)
+let mask_root_len (s : string) : string =
+  let fix_entry e =
+    let f = String.split_on_char ',' e in
+    if List.length f = 8 && List.nth f 2 = "R" then
+      String.concat "," (List.mapi (fun i x -> if i = 7 then "*" else x) f)
+    else e in
+  if String.length s >= 2 && (String.sub s 0 2 = "e:" || String.sub s 0 2 = "l:") && s <> "l:-" then
+    String.sub s 0 2 ^ String.concat ";" (List.map fix_entry (String.split_on_char ';' (String.sub s 2 (String.length s - 2))))
+  else s
+
+let rec take_list k l = if k <= 0 then [] else match l with [] -> [] | x :: t -> x :: take_list (k - 1) t
+
+(* maps a trace operation to a specification operation; None = not expressible
+   on the abstract tree (the history is then left to the other checks) *)
+let sop_of (slots : (int, n list) Hashtbl.t) (t : string array) (impl : string) : sop option option =
+  let p i = dec_path t.(i) in
+  let u i = n_of_dec t.(i) in
+  match t.(0) with
+  | "cs" -> Some (Some (SCreateStorage (p 1)))
+  | "csa" -> Some (Some (SCreateStorageAll (p 1)))
+  | "rs" -> Some (Some (SRemoveStorage (p 1)))
+  | "rsa" -> Some (Some (SRemoveStorageAll (p 1)))
+  | "cst" -> if impl = "ok" then Hashtbl.replace slots (int_of_string t.(1)) (p 2); Some (Some (SCreateStream (p 2, true)))
+  | "cns" -> if impl = "ok" then Hashtbl.replace slots (int_of_string t.(1)) (p 2); Some (Some (SCreateStream (p 2, false)))
+  | "os" -> if impl = "ok" then Hashtbl.replace slots (int_of_string t.(1)) (p 2); Some (Some (SOpenStream (p 2)))
+  | "rst" -> Some (Some (SRemoveStream (p 1)))
+  | "clsid" -> Some (Some (SSetClsid (p 1, n_of_hex t.(2))))
+  | "state" -> Some (Some (SSetState (p 1, u 2)))
+  | "ctime" -> Some (Some (SSetCreated (p 1, t.(2) = "-", u 3, u 4)))
+  | "mtime" -> Some (Some (SSetModified (p 1, t.(2) = "-", u 3, u 4)))
+  | "ex" -> Some (Some (SExists (p 1)))
+  | "ist" -> Some (Some (SIsStream (p 1)))
+  | "isg" -> Some (Some (SIsStorage (p 1)))
+  | "ent" -> Some (Some (SEntry (p 1)))
+  | "rent" -> Some (Some SRootEntry)
+  | "ls" -> Some (Some (SReadStorage (p 1)))
+  | "lsr" -> Some (Some SReadRoot)
+  | "walk" -> Some (Some SWalk)
+  | "walks" -> Some (Some (SWalkStorage (p 1)))
+  | "cat" -> Some (Some (SCat (p 1)))
+  | "reopen" -> Some (Some SReopen)
+  | "hw" ->
+    (* sequential append on the handle created by the preceding cst/cns: the
+       implementation tells how many bytes it accepted (any count 1..len is
+       allowed by the Write contract, checked here) *)
+    (match Hashtbl.find_opt slots (int_of_string t.(1)) with
+     | Some path when String.length impl > 2 && String.sub impl 0 2 = "n:" ->
+       let k = int_of_string (String.sub impl 2 (String.length impl - 2)) in
+       let bs = dec_hex t.(2) in
+       if (bs = [] && k = 0) || (k >= 1 && k <= List.length bs) then Some (Some (SAppend (path, take_list k bs)))
+       else None
+     | _ -> None)
+  | "hd" -> Hashtbl.remove slots (int_of_string t.(1)); Some None
+  | "fl" | "ver" | "hfl" | "hlen" | "hpos" -> Some None
+  | _ -> None
+
+let spec_mode = ref false
+let wf_mode = ref false
+let abs_mode = ref false
+let spec_steps = ref 0
+let wf_images = ref 0
+let abs_checks = ref 0
+
 (* ---------- replay of one trace file ---------- *)
 type hist = { mutable f : fstate option; mutable id : string; mutable step : int;
-              mutable ok : bool; mutable last_img : string; mutable check_img : bool }
+              mutable ok : bool; mutable last_img : string; mutable check_img : bool;
+              mutable tree : node option; slots : (int, n list) Hashtbl.t }
 
 let mismatches = ref 0
 let histories = ref 0
@@ -189,7 +275,7 @@ let split_ws s = Array.of_list (List.filter (fun x -> x <> "") (String.split_on_
 
 let replay_file (path : string) =
   let ic = open_in path in
-  let h = { f = None; id = ""; step = 0; ok = true; last_img = ""; check_img = true } in
+  let h = { f = None; id = ""; step = 0; ok = true; last_img = ""; check_img = true; tree = None; slots = Hashtbl.create 8 } in
   let report kind detail =
     if h.ok then begin
       incr mismatches;
@@ -215,7 +301,9 @@ let replay_file (path : string) =
              | Ok s -> { f0 with cs = s }
              | _ -> report "open" "model cannot reopen a fresh image"; f0)
           else f0 in
-        h.f <- Some f0
+        h.f <- Some f0;
+        Hashtbl.reset h.slots;
+        h.tree <- (if !spec_mode then Some empty_tree else None)
       | 'B' ->
         (* B <id> <maxbuf> <nhandles> p|s <hex image> : start from a given image *)
         let t = split_ws line in
@@ -246,6 +334,29 @@ let replay_file (path : string) =
            bump ("res:" ^ (if String.length impl >= 4 && String.sub impl 0 4 = "err:" then impl else if impl = "panic" then "panic" else "ok"));
            (match r with Panic _ | OutOfFuel -> incr model_bad | _ -> ());
            h.f <- Some f';
+           (if !spec_mode then match h.tree with
+             | None -> ()
+             | Some tr ->
+               (match sop_of h.slots opt impl with
+                | None -> h.tree <- None; bump "spec:unsupported"
+                | Some None -> ()
+                | Some (Some so) ->
+                  incr spec_steps;
+                  let (tr', sr) = spec_step tr now so in
+                  h.tree <- Some tr';
+                  let want = enc_sres sr in
+                  let cmp_ok = (match so with SAppend _ -> sr = Ok SVUnit | _ -> mask_root_len want = mask_root_len impl) in
+                  if not cmp_ok then
+                    report "spec" (Printf.sprintf "op=[%s] spec=%s impl=%s" lhs
+                      (if String.length want > 300 then String.sub want 0 300 ^ "..." else want)
+                      (if String.length impl > 300 then String.sub impl 0 300 ^ "..." else impl))
+                  else if !abs_mode && (match so with SAppend _ | SCreateStream _ | SOpenStream _ -> false | _ -> true)
+                          && Hashtbl.length h.slots = 0 then begin
+                    incr abs_checks;
+                    match abs_state f'.cs with
+                    | Ok a -> if a <> tr' then report "abs" (Printf.sprintf "op=[%s] abstraction of the model state differs from the specification tree" lhs)
+                    | _ -> report "abs" "abstraction function failed"
+                  end));
            if mine <> impl then
              report "result" (Printf.sprintf "op=[%s] model=%s%s impl=%s" lhs
                (if String.length mine > 300 then String.sub mine 0 300 ^ "..." else mine)
@@ -259,6 +370,11 @@ let replay_file (path : string) =
                       else String.sub line 2 (String.length line - 2) in
            h.last_img <- impl;
            incr images;
+           (if !wf_mode && not (String.length line >= 3 && line.[2] = '=') then begin
+              incr wf_images;
+              let code = int_of_n (wf_check (dec_hex impl)) in
+              if code <> 0 then report "wf" (Printf.sprintf "independent checker rejects the implementation's image: rule %d" code)
+            end);
            let mine = hex_of_img f in
            if mine <> impl then
              report "image" (Printf.sprintf "len_model=%d len_impl=%d first_diff_byte=%d"
@@ -271,9 +387,15 @@ let replay_file (path : string) =
   close_in ic
 
 let () =
-  let files = List.tl (Array.to_list Sys.argv) in
+  let args = List.tl (Array.to_list Sys.argv) in
+  let files = List.filter (fun a ->
+    match a with
+    | "--spec" -> spec_mode := true; false
+    | "--wf" -> wf_mode := true; false
+    | "--abs" -> abs_mode := true; false
+    | _ -> true) args in
   List.iter replay_file files;
-  Printf.printf "SUMMARY histories=%d steps=%d images=%d mismatches=%d model_panic_or_fuel=%d\n"
-    !histories !steps !images !mismatches !model_bad;
+  Printf.printf "SUMMARY histories=%d steps=%d images=%d mismatches=%d model_panic_or_fuel=%d spec_steps=%d wf_images=%d abs_checks=%d\n"
+    !histories !steps !images !mismatches !model_bad !spec_steps !wf_images !abs_checks;
   Hashtbl.iter (fun k v -> Printf.printf "COV %s %d\n" k v) cov;
   exit (if !mismatches > 0 then 1 else 0)
